@@ -3,7 +3,10 @@
  1. TLC model-checks Frag.tla exhaustively for both layers (2 sources x 2 messages x <= 3 parts, two
     receive workers with the coded lock structure, cleanup loop, network = set): NoInvention, NoPartial.
  2. TLC (simulation of FragGen.tla) generates schedules of fragment deliveries with repetitions,
-    omissions and bursts that race on several receive workers.
+    omissions and bursts that race on several receive workers; TLC (FragWide.tla, a second family) enumerates
+    one wide message per case whose part count sits on a bitmap-byte / header-width boundary (7..65, 127..129,
+    ... parts) with a withheld suffix / prefix / byte-aligned group / all-but-one loss pattern, and checks the
+    coded completion test on every prefix of the schedule.
  3. harness/cmd/fragreplay tells every message to the REAL sender-side layer (netsim captures the real
     fragments) and feeds the schedule to the REAL receiver-side layer; every delivered payload is decoded
     into blocks (content encodes source, message, offset).
@@ -31,7 +34,9 @@ MANIFEST = {
                      "mbapp receivers delivered when fed TLC-generated schedules of the real fragments (repetitions, "
                      "omissions, concurrent bursts). A VIOLATION is printed only when an operator is false on a real delivery.",
                 note="Bounded: model 2x2x<=3 parts; replay 3 sources x 2 messages, <= 4 parts (quick) / <= 40 parts plus "
-                     "254..300-part messages (thorough), 1-5 blocks per inner packet. Message ids never wrap and senders do "
+                     "254..300-part messages (thorough), 1-5 blocks per inner packet; wide family: part counts "
+                     "7,8,9,15,16,17,24,32,63,64,65 (mbapp) / 7..64,127,128,129 (fragswarm), thorough up to 257 / 255, "
+                     "withheld last/first k (k in 1,7,8,9), a middle group of 8, the last bitmap byte, all but one. Message ids never wrap and senders do "
                      "not restart within a behaviour. The cleanup loops cannot be triggered from the public API and are "
                      "covered by the model only. Trusts TLC, the Json/IOUtils community modules, the Go toolchain.",
                 ref="5 (C10), 3.5"),
@@ -40,10 +45,10 @@ MANIFEST = {
 LAYER_NAME = {"frag": "fragswarm", "mbapp": "mbapp"}
 
 TIERS = {
-    "quick": dict(mc=["Frag_frag_cap2_nc.cfg", "Frag_mbapp_cap2_nc.cfg"], gen="FragGen_quick.cfg", sim=700, parts=1, depth=120),
+    "quick": dict(mc=["Frag_frag_cap2_nc.cfg", "Frag_mbapp_cap2_nc.cfg"], gen="FragGen_quick.cfg", sim=450, parts=1, depth=120, wide="FragWide_quick.cfg"),
     "thorough": dict(mc=["Frag_frag_cap2.cfg", "Frag_mbapp_cap2.cfg", "Frag_frag_deep.cfg", "Frag_mbapp_deep.cfg"],
                      gen="FragGen_thorough.cfg", sim=2400, parts=4, depth=500,
-                     extra=("FragGen_quick.cfg", 3000)),
+                     extra=("FragGen_quick.cfg", 3000), wide="FragWide_thorough.cfg"),
 }
 
 
@@ -65,6 +70,20 @@ def generate(tier, stats):
             raise core.Inconclusive("FragGen %s produced %d of %d behaviours" % (cfg, len(hs), n))
         return hs
 
+    def gen_wide(cfg):
+        # second family: one wide message with a part count on a bitmap / header-width boundary and a loss pattern
+        # that withholds a prefix, a suffix, a byte-aligned group or all but one part (FragWide.tla); TLC checks
+        # the coded completion test on every prefix of the schedule and prints the schedule
+        res = core.tlc("MC_FragWide", cfg, workers=1, timeout=1500, label="wide-" + cfg[:-4], short=True)
+        core.tlc_ok_or_inconclusive(res, "FragWide " + cfg)
+        hs = [x[1] for x in res.printed("BEH")]
+        if len(hs) < 100:
+            raise core.Inconclusive("FragWide %s produced only %d schedules" % (cfg, len(hs)))
+        stats["mc"][cfg[:-4]] = dict(states=res.distinct, transitions=res.generated, depth=1, wall=round(res.wall, 1))
+        for h in hs:
+            h["lost"] = sorted(h["lost"])
+        return hs
+
     side = [ex.submit(mc, cfg) for cfg in T["mc"]]
     futs = []
     per = T["sim"] // T["parts"]
@@ -72,7 +91,9 @@ def generate(tier, stats):
         futs.append(ex.submit(gen, T["gen"], per, core.seed() * 1000 + i, T["depth"]))
     if T.get("extra"):
         futs.append(ex.submit(gen, T["extra"][0], T["extra"][1], core.seed() * 1000 + 77, 120))
-    behs = []
+    fw = ex.submit(gen_wide, T["wide"])
+    behs = list(fw.result())
+    stats["wide_behaviours"] = len(behs)
     for f in futs:
         behs.extend(f.result())
     for i, b in enumerate(behs):
@@ -84,8 +105,15 @@ def beh_hash(b):
     return hashlib.sha1(json.dumps([b["layer"], b["cap"], b["lens"], b["steps"]], sort_keys=True).encode()).hexdigest()
 
 
+def beh_sample(b):
+    d = dict(layer=b["layer"], cap=b["cap"], lens=b["lens"], lost=b["lost"], steps=b["steps"][:12])
+    if "wide" in b:
+        d["wide"] = dict(n=b["wide"]["n"], withheld=sorted(b["wide"]["withheld"]), order=b["wide"]["order"])
+    return d
+
+
 def run_pipeline(tier, behs=None):
-    stats = dict(mc={}, events=0, trace_states=0, drift=0, drift_samples=[])
+    stats = dict(mc={}, events=0, trace_states=0, drift=0, drift_samples=[], wide_behaviours=0)
     d = core.scratch("frag")
     binp = core.go_build("fragreplay")
     side, ex = [], None
@@ -93,7 +121,7 @@ def run_pipeline(tier, behs=None):
         behs, side, ex = generate(tier, stats)
     byid = {b["id"]: b for b in behs}
     # chunks of ~400 behaviours: one replay process + one TLC trace validation each
-    chunk = 400 if tier == "quick" else 250
+    chunk = (len(behs) + 1) // 2 if tier == "quick" else 250
     chunks = [behs[i:i + chunk] for i in range(0, len(behs), chunk)]
 
     def replay_validate(ci, bl):
@@ -149,8 +177,7 @@ def run_pipeline(tier, behs=None):
     if ex:
         ex.shutdown()
     stats.update(behaviours=len(behs), deliveries=ndeliv, duplicate_deliveries=ndup, multi=len(multi),
-                 samples=[dict(layer=b["layer"], cap=b["cap"], lens=b["lens"], lost=b["lost"], steps=b["steps"][:12])
-                          for b in behs[:2]])
+                 samples=[beh_sample(b) for b in (behs[:1] + behs[len(behs) // 3:len(behs) // 3 + 1] + behs[-1:])])
     return stats, violations
 
 
@@ -182,7 +209,7 @@ def check(pid, tier, replay=None):
         rule="evaluations = trace events validated by TLC (tell / feed / deliver / end of every replayed schedule); "
              "distinct_nontrivial = distinct schedules (hash of layer, sizes and steps) in which the real receiver "
              "reassembled and delivered at least one multi-fragment message",
-        model_checking=stats["mc"], deliveries=stats["deliveries"], duplicate_deliveries=stats["duplicate_deliveries"],
+        model_checking=stats["mc"], wide_schedules=stats.get("wide_behaviours", 0), deliveries=stats["deliveries"], duplicate_deliveries=stats["duplicate_deliveries"],
         drift_steps=stats["drift"], exhaustive=False,
         explanation="TLC exhaustively checks NoInvention/NoPartial on Frag.tla within the bounds of the listed configs and "
                     "generates fragment schedules that are executed on the real fragswarm/mbapp layers (netsim as inner "
